@@ -440,9 +440,10 @@ def run_H9(ctx, case):
             q.n += 1; q.unsat += bool(c_); q.sat += (not c_)
             if not c_: q.failed.append(('%s: %s' % (tag, msg), dict(events=[e[0] for e in events])))
         names = [e[0] for e in events]
-        chk(names.count('program') == 16, 'both initialisations regenerate the 8 programs (%d generateSuperscalar calls)' % names.count('program'))
-        ex = [i for i, n_ in enumerate(names) if n_ == 'execute']
-        chk(len(ex) == (2 if case['first_dataset'] else 1), 'each init_dataset call enters generated code once (vacuity witness): %d' % len(ex))
+        ex = [i for i, n_ in enumerate(names) if n_ == 'execute']; pr = [i for i, n_ in enumerate(names) if n_ == 'program']
+        # vacuity: the scenario must really rewrite the programs for the second key and enter generated code afterwards (otherwise this harness no longer exercises the code: inconclusive, not a violation)
+        if not pr or not ex or not any(i > pr[-1] for i in ex) or (case['first_dataset'] and not any(i > ex[0] for i in pr)):
+            q.inconclusive.append(tag + ': scenario not exercised (programs rewritten %d times, generated code entered %d times)' % (len(pr), len(ex))); return
         for i in ex:
             lastp = max([j for j in range(i) if names[j] == 'program'] or [-1])
             gh = [j for j in range(i) if names[j] == 'generateSuperscalarHash']; gd = [j for j in range(i) if names[j] == 'generateDatasetInitCode']
@@ -496,10 +497,12 @@ def run_H8(ctx, case):
         tag = '%s %s machine, %sFlagV2()' % ('compiled' if case['jit'] else 'interpreted', 'hard-AES' if case.get('aes') else 'soft-AES', case['op'])
         q.prove_eq(pc, it.mem.load(Ptr(vm.obj, L['vmFlags']), 4), exp, tag + ': version bit %s whatever it was before, every other flag unchanged' % ('set' if case['op'] == 'set' else 'cleared'), 32)
         if case['jit']:
-            ok = len(seen) == 1 and isinstance(seen[0][0], Ptr) and seen[0][0].obj == vm.obj
-            q.n += 1; q.unsat += ok; q.sat += (not ok)
-            if not ok: q.failed.append((tag + ': the code generator of this machine is told the new flags (setFlags called %d times)' % len(seen), {}))
-            else: q.prove_eq(pc, seen[0][1], exp, tag + ': flags handed to the code generator == flags of the machine', 32)
+            if not seen: q.inconclusive.append(tag + ': no JitCompiler::setFlags call seen - how the code generator learns the version is not recognised by this harness')
+            else:
+                ok = isinstance(seen[-1][0], Ptr) and seen[-1][0].obj == vm.obj
+                q.n += 1; q.unsat += ok; q.sat += (not ok)
+                if not ok: q.failed.append((tag + ': setFlags called on a code generator that is not this machine\'s', {}))
+                else: q.prove_eq(pc, seen[-1][1], exp, tag + ': flags handed to the code generator == flags of the machine', 32)
     res, nq = explore(one, limit=64); q.n += nq
     return result('H8', str(case), q, paths=npaths[0])
 
